@@ -92,7 +92,7 @@ pub fn canon_unordered(s: &str) -> String {
     out
 }
 
-fn strip_includes(b: Vec<S>, allow: &[&str]) -> Vec<S> {
+pub fn strip_includes(b: Vec<S>, allow: &[&str]) -> Vec<S> {
     b.into_iter()
         .filter_map(|s| {
             Some(match s {
@@ -280,6 +280,10 @@ pub fn check_map_loop(m: &BTreeMap<MKey, MVal>, kv: bool, with_else: bool, salt:
 }
 
 const MAIN_INC: SOpts = SOpts { includes: &["inc1", "inc2"] };
+
+pub fn program_strategy(d: u32) -> impl Strategy<Value = (Vec<S>, Vec<S>, Vec<S>, (Ctx, Ctx), bool, bool, u64)> {
+    (body(d, false, false, MAIN_INC), body(2, false, false, MAIN_INC), body(1, false, false, MAIN_INC), ctxs(), any::<bool>(), any::<bool>(), any::<u64>())
+}
 
 pub fn run(rep: &Report) {
     rep.set_rule("programs = three generated templates (main may include inc1 and inc2, inc1 may include inc2) built from statement trees of depth <= 3 (4 in thorough) mixing if/elif/else, for over arrays/strings/maps with else, break/continue, set, set_global, set blocks with 0-2 filters (filter kwargs reading variables), filter sections, includes, over a 6-name pool shared with the render context and the global context so the four scopes shadow each other; every body is instrumented with observation points printing all names (and loop.* inside loops) after every statement. Oracle: reference interpreter, exact text (or both fail at render time). Loops over maps with >= 2 entries are checked by a dedicated order-insensitive family. Non-trivial: a loop together with an assignment, break, continue, capture or include; distinct by (sources, contexts).");
